@@ -31,7 +31,7 @@ RULE = (
     "and every consolidated row's job is recorded as done (it was reported to a round). A third of the direct cases "
     "continue as resubmit-jobs does: clear_results_for_resubmission rewrites the consolidated file without a generated "
     "subset of the rows, then a second generation of runners / collectors / submitter-level rows works on the rewritten "
-    "file; it must hold exactly the kept rows (unchanged) plus the new ones, each new row reported to exactly one round"
+    "file; it must hold exactly the kept rows (unchanged) plus the new ones, each new row reported to exactly one round. Batch numbers start at a generated base (0, 1, 7, 9, 98)"
 )
 ASSUMPTIONS = C.WORLD_ASSUMPTIONS + [
     "file_yields on; a row / file content reaches the disk atomically at close (rows are < 1 page, one buffered write)",
